@@ -28,7 +28,7 @@ pub fn is_nearest(a: &Z, b: &Z, q: &Z) -> bool {
     d <= b.abs()
 }
 
-pub trait ORing: Clone + PartialEq + Debug {
+pub trait ORing: Clone + PartialEq + Debug + Send + Sync + 'static {
     fn o0() -> Self;
     fn o1() -> Self;
     fn add(&self, o: &Self) -> Self;
